@@ -699,7 +699,18 @@ func runScalars(raw json.RawMessage, seed int64, rec *Rec) {
 		// is fresh, was already sent through another client, or is a handler's incoming request being forwarded
 		const procA, procB = "/verif.v1.A/First", "/verif.v1.B/Second"
 		var hspec connect.Spec
-		hB := connect.NewUnaryHandler(procB, func(_ context.Context, r *connect.Request[BV]) (*connect.Response[BV], error) {
+		// the procedure string the handler is constructed with comes in the same shapes as a client's URL: rooted,
+		// unrooted, behind a path prefix, a full URL -- the Spec is labelled with the canonical path all the same
+		hproc := procB
+		switch s.Text {
+		case "unrooted":
+			hproc = procB[1:]
+		case "prefix":
+			hproc = "/api/v1" + procB
+		case "fullurl":
+			hproc = "https://verif.test:8443/api" + procB
+		}
+		hB := connect.NewUnaryHandler(hproc, func(_ context.Context, r *connect.Request[BV]) (*connect.Response[BV], error) {
 			hspec = r.Spec()
 			return connect.NewResponse(&BV{}), nil
 		})
